@@ -29,8 +29,14 @@ def adjustments(R, rep):
         return None
     appo = calls[0]["term"]["callee"]
     seen = {}
+    ledger_ids = tuple(x.id for x in F.bodies.values() if "acquisition_ledger::" in x.id)
+    deep = {}
+    def tb2(body):      # event carriers built by small helpers are seen through; ledger methods stay calls
+        if body.id not in deep:
+            deep[body.id] = Terms(F, body, inline_depth=2, stops=ledger_ids)
+        return deep[body.id]
     for it in calls:
-        adj = it["tb"].operand(it["term"]["args"][1])
+        adj = tb2(it["body"]).operand(it["term"]["args"][1])
         variants = {x[2] for x in subterms(adj) if isinstance(x, tuple) and len(x) == 3 and x[0] == "dc"}
         for v in variants:
             seen.setdefault(v, []).append((it, adj))
@@ -58,7 +64,7 @@ def adjustments(R, rep):
     basis_fn = None
     if len(cr) == 1:
         it, adj = cr[0]
-        hb, i, t, tb = it["body"], it["bb"], it["term"], it["tb"]
+        hb, i, t, tb = it["body"], it["bb"], it["term"], tb2(it["body"])
         net = mk_neg(adj)
         ok3 = False
         gblock = None
@@ -90,6 +96,17 @@ def adjustments(R, rep):
                 if fc["bb"] in arm and fc["parts"]:
                     txts.append(template_text(fc["parts"]))
                     args += [show(p[1]) for p in fc["parts"] if p[0] == "arg"]
+            # …or built by a helper called on the refusing edge (`return Err(exceeds_cost(tx, net, basis))`)
+            from mir import subst
+            for x_ in arm:
+                tx_ = hb.term(x_)
+                eb = F.bodies.get(tx_.get("callee", "")) if tx_["k"] == "call" else None
+                if eb is not None and eb.crate == hb.crate and "CgtError" in eb.ret:
+                    eargs = [tb.operand(a) for a in tx_["args"]]
+                    for fc in format_calls(F, eb, Terms(F, eb, inline_depth=0)):
+                        if fc["parts"]:
+                            txts.append(template_text(fc["parts"]))
+                            args += [show(subst(p[1], eargs)) for p in fc["parts"] if p[0] == "arg"]
             txt = " ".join(txts)
             okm = "S122" in txt and any(a.endswith(".ticker") for a in args) and any(a.endswith(".date") for a in args)
             rep.ob("R2", "capreturn:error-text", okm, "the refusal names the ticker and date and cites TCGA92 s122" if okm else
@@ -110,6 +127,18 @@ def adjustments(R, rep):
                         if isinstance(cnd, tuple) and cnd and cnd[0] == "cmp" and cnd[3] == ("const", "Decimal::ZERO") and \
                                 any(isinstance(z, tuple) and z and z[0] == "call" and "held" in z[1] for z in subterms(cnd[2])):
                             ops.add(cnd[1] if truth(val) else NEGOP[cnd[1]])
+                # (c) `…map(|lot| (held(lot), lot)).filter(|(h, _)| *h > 0).for_each(..)` / `.filter(..).map(..).sum()`:
+                #     the filter stages of the iterator chain that is consumed here, with mapped components resolved
+                from roles import iterator_chain
+                for j, u in x.calls():
+                    if parse_callee(u["callee"])[2] in ("for_each", "sum", "fold", "try_for_each", "collect") and u["args"]:
+                        res = iterator_chain(F, xt.operand(u["args"][0]))
+                        if res is None:
+                            continue
+                        for cnd, kind, cid in res[2]:
+                            if isinstance(cnd, tuple) and cnd and cnd[0] == "cmp" and cnd[3] == ("const", "Decimal::ZERO") and \
+                                    any(isinstance(z, tuple) and z and z[0] == "call" and "held" in z[1] for z in subterms(cnd[2])):
+                                ops.add(cnd[1])
                 # (b) filter closures returning the comparison
                 r0 = xt.local(0)
                 if x.kind == "closure" and isinstance(r0, tuple) and r0 and r0[0] == "cmp" and r0[3] == ("const", "Decimal::ZERO") and \
